@@ -25,11 +25,18 @@ class CaseNode(BaseNode):
             self.case_type = m.group(2)
             self.name = f"{m.group(1)}{str(self.case_id)}" 
             if m.group(2) == Keyword.CASE:
-                with LogicalSolver(env) as s:
-                    if self.value_expr:
-                        self.value = s.solve(self.value_expr)
-                    else:
-                        self.value = s.solve(self.value_raw)
+                try:
+                    with LogicalSolver(env) as s:
+                        if self.value_expr:
+                            self.value = s.solve(self.value_expr)
+                        else:
+                            self.value = s.solve(self.value_raw)
+                except Exception as error:
+                    # a clause that cannot be reached (its block stands in an unselected clause, or an earlier clause of
+                    # its block is selected) need not have a condition that can be evaluated: it may refer to nodes that
+                    # exist only where it can be reached. Whether that is so is known once the clause is registered.
+                    self.value = BooleanType(False)
+                    self.error = error
             elif m.group(2) == Keyword.ELSE:
                 self.value = BooleanType(True)
         return None
